@@ -1,8 +1,10 @@
 SPECIFICATION Spec
 CONSTANTS
   N = 2
+  MaxFaults = 2
   BugCheckBeforeCreateRef = FALSE
   BugDeleteWithoutList = FALSE
+  BugDropCloseError = FALSE
 INVARIANT Safe
 INVARIANT AttachedHaveRef
 INVARIANT NoLeak
